@@ -112,7 +112,9 @@ def gen_layer_case(rng, d, cap, f32=False, long=None):
             modes = [rng.randint(1, min(12, N // 2 + 1)) for N in shape]
     case = dict(kind="layer", f32=int(f32), shape=shape, C=C, B=B, layer=gen_layer_params(rng, modes or gen_modes(rng, shape), C),
                 x=_nums(rng, B * _prod(shape) * C), shifts=gen_shifts(rng, shape),
-                mode=rng.choice(EXEC_MODES), train=rng.randint(0, 1))
+                mode=rng.choice(EXEC_MODES), train=rng.randint(0, 1), amp=gen_amp(rng, f32))
+    if case["amp"] != 1.0 and rng.random() < 0.7:
+        case["layer"]["bias"], case["layer"]["b"] = 0, []       # a bias of order one would hide a tiny field
     if long == "oracle":
         case["nomodel"] = 1
     if d == 1 and rng.random() < 0.3:
@@ -129,7 +131,9 @@ def _eye(n):
     return [DEN if i == j else 0 for i in range(n) for j in range(n)]
 
 
-def gen_fno_case(rng, d, cap, f32=False, long=False):
+def gen_fno_case(rng, d, cap, f32=False, long=False, linear_path=False):
+    """linear_path: no bias anywhere, identity activations -- the FNO is linear, so it is exercised over many decades of
+    input amplitude with tolerances proportional to the amplitude"""
     shape = gen_shape(rng, d, cap)
     if long:
         shape = [rng.choice(LONG_N + MID_N)] if d == 1 else [rng.randint(1, 3), rng.choice([n for n in LONG_N if n <= 301])]
@@ -139,6 +143,8 @@ def gen_fno_case(rng, d, cap, f32=False, long=False):
     # lifting / projection networks: the default nn.Linear, or user supplied ones
     up = rng.choice(["default", "default", "identity", "nobias", "mlp"])
     down = rng.choice(["default", "default", "identity", "nobias", "mlp"])
+    if linear_path:
+        up, down = rng.choice(["identity", "nobias"]), rng.choice(["identity", "nobias"])
     if up == "identity":
         Cin = C
     if down == "identity":
@@ -157,6 +163,8 @@ def gen_fno_case(rng, d, cap, f32=False, long=False):
                 p["b"] = (p["b"] or _nums(rng, C)) if p["bias"] else []
         p["kern"] = [k // 4 for k in p["kern"]]           # keep the activations out of saturation
         p["act"] = layers[0]["act"] if (uniform and layers) else rng.choice(ACTS)
+        if linear_path:
+            p["bias"], p["b"], p["act"] = 0, [], "id"
         layers.append(p)
     case = dict(kind="fno", f32=int(f32), shape=shape, Cin=Cin, C=C, Cout=Cout, B=B, layers=layers, up=up, down=down, uniform=int(uniform),
                 upW=_eye(C) if up == "identity" else _nums(rng, C * Cin, -16, 16),
@@ -165,6 +173,8 @@ def gen_fno_case(rng, d, cap, f32=False, long=False):
                 downb=[0] * Cout if down in ("identity", "nobias") else _nums(rng, Cout, -16, 16),
                 x=_nums(rng, B * _prod(shape) * Cin, -24, 24), shifts=gen_shifts(rng, shape),
                 mode=rng.choice(EXEC_MODES), train=rng.randint(0, 1))
+    if linear_path:
+        case["linear_path"], case["amp"] = 1, gen_amp(rng, f32)
     for side, kind, cin, cout in (("upmlp", up, Cin, C), ("downmlp", down, C, Cout)):
         if kind == "mlp":
             h = rng.randint(1, 3)
@@ -206,8 +216,12 @@ def gen_history_case(rng, d, sub):
     modes = gen_modes(rng, s0)
     case = dict(kind="history", sub=sub, f32=0, shapes=shapes, B=1, mode=rng.choice(EXEC_MODES), train=rng.randint(0, 1))
     if sub == "layer":
+        case["amp"] = gen_amp(rng)
+    if sub == "layer":
         C = rng.randint(1, 2)
         case.update(C=C, layer=gen_layer_params(rng, modes, C))
+        if case.get("amp", 1.0) != 1.0 and rng.random() < 0.7:
+            case["layer"]["bias"], case["layer"]["b"] = 0, []
         cin = C
     else:
         Cin, C, Cout = rng.randint(1, 2), rng.randint(1, 2), rng.randint(1, 2)
@@ -339,6 +353,9 @@ def gen_cases(ctx):
         cases.append(gen_fno_case(rng, rng.choice([1, 1, 2]), cap, long=True))
     for _ in range(ctx.scale(6, 60)):
         cases.append(gen_bn_case(rng))
+    # linear FNOs (no bias, identity activations) over many decades of input amplitude
+    for _ in range(ctx.scale(16, 160)):
+        cases.append(gen_fno_case(rng, rng.choice([1, 1, 2, 3]), 24, linear_path=True, f32=rng.random() < 0.3))
     # histories: the same object on several grids
     for _ in range(ctx.scale(36, 360)):
         cases.append(gen_history_case(rng, rng.choice([1, 1, 1, 2, 2, 3]), rng.choice(["layer", "layer", "fno"])))
@@ -382,6 +399,37 @@ def bits(torch, t):
     return t.detach().contiguous().view(torch.int32 if t.dtype == torch.float32 else torch.int64).clone()
 
 
+def gen_amp(rng, f32=False):
+    """input amplitude: 1 half of the time, else m * 10^e over many decades (float64: 1e-20 .. 1e20, float32: 1e-12 .. 1e12)"""
+    if rng.random() < 0.5:
+        return 1.0
+    e = rng.randint(-12, 12) if f32 else rng.randint(-20, 20)
+    if rng.random() < 0.3:
+        e = (-7 if f32 else -16) + rng.randint(-2, 1)          # around the machine epsilon of the dtype
+    return float(f"{rng.choice([1, 2.5, 5, 7.3])}e{e}")
+
+
+def layer_gain(p):
+    """bound of |output| / max|input| of one Fourier layer (spectral path + linear + skip), and the largest bias"""
+    C = max(1, len(p["kern"]) // (2 * _prod(p["modes"])))
+    k = [math.hypot(p["kern"][2 * i], p["kern"][2 * i + 1]) / DEN for i in range(len(p["kern"]) // 2)]
+    spectral = 2.0 * sum(max(k[j * C:(j + 1) * C]) for j in range(len(k) // C))
+    lin = max((sum(abs(w) for w in p["W"][r * C:(r + 1) * C]) / DEN for r in range(C)), default=0.0) if p["W"] else 0.0
+    return 1.0 + spectral + lin, max((abs(b) / DEN for b in p["b"]), default=0.0)
+
+
+def layer_scale(p):
+    """scale of the tolerances for one layer: never larger than the plain 1 + max|y|, and proportional to the input amplitude
+    when the input is tiny (the layer is affine: rounding errors are bounded by eps * (gain * max|x| + max|b| + max|y|))"""
+    gain, bmax = layer_gain(p)
+    return lambda y, x: min(1.0 + float(y.abs().max()), float(y.abs().max()) + gain * float(x.abs().max()) + bmax)
+
+
+def linear_path_scale(y, x):
+    """FNO without any bias and with identity activations: homogeneous of degree one in the input"""
+    return min(1.0 + float(y.abs().max()), float(y.abs().max()) + float(x.abs().max()))
+
+
 def run_in(torch, mode, f, t):
     """one forward pass in the given execution context; the result is detached"""
     if mode == "inference":
@@ -408,7 +456,7 @@ def guarded_call(torch, mode, f, t, what, problems):
     return y
 
 
-def check_relations(torch, f, x, shifts, tol, what, problems, mode="no_grad"):
+def check_relations(torch, f, x, shifts, tol, what, problems, mode="no_grad", scale_of=None):
     """shift equivariance of the map f on the implementation; f: tensor (B, *shape, C) -> tensor"""
     x0 = bits(torch, x)
     n0 = len(problems)
@@ -418,7 +466,7 @@ def check_relations(torch, f, x, shifts, tol, what, problems, mode="no_grad"):
     if tuple(y.shape[:-1]) != tuple(x.shape[:-1]):
         problems.append(f"{what}: output grid {tuple(y.shape[1:-1])} differs from the input grid {tuple(x.shape[1:-1])}")
         return y
-    scale = 1.0 + float(y.abs().max())
+    scale = scale_of(y, x) if scale_of else 1.0 + float(y.abs().max())
     for sh in shifts:
         if sh[0] >= 0:
             dims, amounts = (sh[0] + 1,), (sh[1],)
@@ -456,20 +504,23 @@ def eval_layer(case):
         try:
             mode = case.get("mode", "no_grad")
             L = build_layer(torch, _FourierLayer, p, C, f32, case)
-            x = _t(torch, case["x"], (B, *shape, C), rd)
+            amp = case.get("amp", 1.0)
+            x = _t(torch, case["x"], (B, *shape, C), torch.float64).mul(amp).to(rd)
             tol = TOL_ORACLE32 if f32 else TOL_ORACLE64
-            y = check_relations(torch, L, x, case["shifts"], tol, "_FourierLayer", problems, mode)
+            sc = layer_scale(p)
+            what0 = "_FourierLayer" + (f" (input amplitude {amp:g})" if amp != 1.0 else "")
+            y = check_relations(torch, L, x, case["shifts"], tol, what0, problems, mode, sc)
             if "res" in case:
                 N, r = shape[0], case["res"]["r"]
-                xc = trig_input(torch, case["res"], B, N, C, rd)
-                xf = trig_input(torch, case["res"], B, r * N, C, rd)
+                xc = trig_input(torch, case["res"], B, N, C, torch.float64).mul(amp).to(rd)
+                xf = trig_input(torch, case["res"], B, r * N, C, torch.float64).mul(amp).to(rd)
                 yc = guarded_call(torch, mode, L, xc, "_FourierLayer", problems)
                 yf = guarded_call(torch, mode, L, xf, "_FourierLayer", problems)
                 if tuple(yc.shape) == tuple(xc.shape) and tuple(yf.shape) == tuple(xf.shape):
                     err = float((yf[:, ::r, :] - yc).abs().max())
-                    scale = 1.0 + float(yc.abs().max())
+                    scale = sc(yc, xc)
                     if not err <= tol * scale:
-                        problems.append(f"_FourierLayer: not resolution-consistent: band limit {case['res']['band']} < kept modes {p['modes'][0]}, "
+                        problems.append(f"{what0}: not resolution-consistent: band limit {case['res']['band']} < kept modes {p['modes'][0]}, "
                                         f"grid {N} vs {r * N}: outputs differ by {err:.3g} at the shared nodes (tolerance {tol * scale:.3g})")
                 else:
                     problems.append(f"_FourierLayer: output grid differs from the input grid ({tuple(yc.shape)} for {tuple(xc.shape)}, "
@@ -490,7 +541,8 @@ def layer_tokens(p, C, with_act):
 def layer_lines(case):
     shape, C, B = case["shape"], case["C"], case["B"]
     n = _prod(shape) * C
-    f = lambda v: fbits(v / DEN)
+    amp = case.get("amp", 1.0)
+    f = lambda v: fbits(v / DEN * amp)
     return [f"layer {lst(shape)} {C} {layer_tokens(case['layer'], C, False)} {lst(case['x'][b * n:(b + 1) * n], f)}"
             for b in range(B)]
 
@@ -506,9 +558,10 @@ def eval_fno(case):
     with torch.no_grad():
         try:
             net, f = build_fno(tp, torch, case, rd, cd)
-            x = _t(torch, case["x"], (B, *shape, Cin), rd)
+            x = _t(torch, case["x"], (B, *shape, Cin), torch.float64).mul(case.get("amp", 1.0)).to(rd)
             tol = TOL_ORACLE32 if f32 else TOL_ORACLE64
-            y = check_relations(torch, f, x, case["shifts"], tol, "FNO", problems, case.get("mode", "no_grad"))
+            y = check_relations(torch, f, x, case["shifts"], tol, "FNO" + (f" (linear, input amplitude {case['amp']:g})" if case.get("linear_path") else ""),
+                                problems, case.get("mode", "no_grad"), linear_path_scale if case.get("linear_path") else None)
         except Exception as e:
             return dict(error=f"{type(e).__name__}: {e}"[:300], problems=problems)
     return dict(out=y.detach().to(torch.float64), problems=problems)
@@ -521,7 +574,8 @@ def fno_lines(case):
     head = (f"fno {lst(shape)} {Cin} {C} {Cout} {lst(case['upW'], f)} {lst(case['upb'], f)} {len(case['layers'])} "
             + " ".join(layer_tokens(l, C, True) for l in case["layers"])
             + f" {lst(case['downW'], f)} {lst(case['downb'], f)}")
-    return [f"{head} {lst(case['x'][b * n:(b + 1) * n], f)}" for b in range(B)]
+    fx = lambda v: fbits(v / DEN * case.get("amp", 1.0))
+    return [f"{head} {lst(case['x'][b * n:(b + 1) * n], fx)}" for b in range(B)]
 
 
 def mk_space(tp, vs):
@@ -610,10 +664,12 @@ def eval_history(case):
                 x = trig_input(torch, case["trig"], 1, sh[0], cin, rd)
             else:
                 x = _t(torch, st["x"], (1, *sh, cin), rd)
+            x = x * case.get("amp", 1.0)
             xs.append(x)
             try:
                 pr = []
-                y = check_relations(torch, f, x, st["shifts"], TOL_ORACLE64, what, pr, case.get("mode", "no_grad"))
+                y = check_relations(torch, f, x, st["shifts"], TOL_ORACLE64, what, pr, case.get("mode", "no_grad"),
+                                    layer_scale(case["layer"]) if sub == "layer" else None)
                 problems += pr
                 outs.append(y.detach().to(torch.float64) if tuple(y.shape[:-1]) == tuple(x.shape[:-1]) else None)
             except Exception as e:
@@ -627,7 +683,7 @@ def eval_history(case):
                         continue
                     r = sj[0] // si[0]
                     err = float((yj[:, ::r, :] - yi).abs().max())
-                    scale = 1.0 + float(yi.abs().max())
+                    scale = layer_scale(case["layer"])(yi, xs[i])
                     if not err <= TOL_ORACLE64 * scale:
                         problems.append(f"{name}: not resolution-consistent within one object's history {case['shapes']}: band limit {band}, calls "
                                         f"{i + 1} (grid {si[0]}) and {j + 1} (grid {sj[0]}) differ by {err:.3g} at the shared nodes")
@@ -846,6 +902,8 @@ def judge(rep, case, res, replies):
             m = torch.tensor([unfbits(v) for v in toks], dtype=torch.float64).reshape(y.shape)
             err = float((m - y).abs().max())
             scale = 1.0 + float(y.abs().max())
+            if case["sub"] == "layer":
+                scale = layer_scale(case["layer"])(y, res["xs"][t])
             if not err <= TOL_MODEL * scale:
                 rep.disagree(f"values of call {t + 1} (grid {case['shapes'][t]}) in a history of one {name} object: the stateless Lean model "
                              f"(drivers/C20.lean) vs the implementation, tolerance {TOL_MODEL}*(1+max|y|)", case,
@@ -914,6 +972,13 @@ def judge(rep, case, res, replies):
         rep.count(f"fno:up={case.get('up', 'default')}")
         rep.count(f"fno:down={case.get('down', 'default')}")
         rep.count("fno:scalar-ctor-args" if case.get("uniform") else "fno:per-layer-ctor-args")
+    amp = case.get("amp", 1.0)
+    if amp != 1.0:
+        e = math.floor(math.log10(amp))
+        rep.count("input-amplitude:" + ("<=1e-13" if e < -12 else "1e-12..1e-7" if e < -6 else "1e-6..1e-1" if e < 0 else "1e0..1e6" if e <= 6 else "1e7..1e12" if e <= 12 else ">=1e13")
+                  + (":f32" if case["f32"] else ":f64"))
+    if case.get("linear_path"):
+        rep.count("fno:linear-path")
     if case.get("intmode"):
         rep.count("layer:int-mode_num")
     if case.get("bn"):
@@ -945,6 +1010,12 @@ def judge(rep, case, res, replies):
     m = torch.tensor([[unfbits(t) for t in r.split()] for r in replies], dtype=torch.float64).reshape(y.shape)
     err = float((m - y).abs().max())
     scale = 1.0 + float(y.abs().max())
+    xmax = max((abs(v) for v in case["x"]), default=0) / DEN * case.get("amp", 1.0)
+    if kind == "layer":
+        gain, bmax = layer_gain(case["layer"])
+        scale = min(scale, float(y.abs().max()) + gain * xmax + bmax)
+    elif case.get("linear_path"):
+        scale = min(scale, float(y.abs().max()) + xmax)
     if not err <= TOL_MODEL * scale:
         idx = int((m - y).abs().argmax())
         rep.disagree(f"values: drivers/C20.lean `{kind}` (Fourier.{'layer' if kind == 'layer' else 'fnoBody'} at Float) vs "
@@ -960,7 +1031,8 @@ def run(ctx, rep, cases=None):
                 "same half-spectrum shape, repeats, refinements; every call compared with the stateless model and checked with the shift relations, "
                 "band-limited histories with the resolution relation between calls); named = FNOs with 2-3 named input variables fed in the model's "
                 "order and in another order, alone, inside tp.models.Parallel and chained in tp.models.Sequential (output shape, by-name identity, "
-                "shift relations, Lean fnoFix/fnoSelect); distinct = distinct (configuration, data) digests")
+                "shift relations, Lean fnoFix/fnoSelect); half of the layer cases / layer histories and the bias-free linear FNOs scale the input by "
+                "m*10^e (e in -20..20 float64, -12..12 float32) with tolerances proportional to the amplitude; distinct = distinct (configuration, data) digests")
     cases = cases if cases is not None else gen_cases(ctx)
     results, lines, spans = [], [], []
     for c in cases:
@@ -1003,7 +1075,7 @@ def replay(ctx, obj):
     inp = obj.get("failing_input") or obj.get("first")
     case = {k: v for k, v in inp["input"].items() if k in
             ("kind", "f32", "shape", "C", "B", "layer", "x", "shifts", "res", "Cin", "Cout", "layers", "upW", "upb", "downW", "downb",
-             "mode", "train", "nomodel", "intmode", "bn", "up", "down", "uniform", "upmlp", "downmlp",
+             "mode", "train", "nomodel", "intmode", "bn", "up", "down", "uniform", "upmlp", "downmlp", "amp", "linear_path",
              "sub", "shapes", "steps", "trig", "variant", "nets", "feeds", "data")}
     lean = common.lean_check("C20")
     run(ctx, rep, [case])
